@@ -746,7 +746,11 @@ def run_render(case):
                 return out
             # column names and types: only when they fit their column and have no outer blanks
             _, types = build_schema(case)
-            hdr = [p.strip() for p in lines[1].split("│")[2:-1]] if case["names"] else []
+            hdr = [p.strip() for p in lines[1].split("│")[2:-1]] if case["names"] and len(lines) > 1 else []
+            if len(hdr) < len(case["names"]):
+                # fewer header cells than columns: some column name is not printed at all (whatever its length)
+                out["clause"] = "a column name is not printed in the header"
+                return out
             for j, nm in enumerate(case["names"]):
                 nm = str(nm)
                 if len(nm) <= case["maxcol"] and nm == nm.strip() and "│" not in nm and hdr[j] != nm:
@@ -758,6 +762,9 @@ def run_render(case):
                 return out
             if case["show_types"] and case.get("coltypes") is not None and case["names"]:
                 trow = [p.strip() for p in lines[2].split("│")[2:-1]]
+                if len(trow) < len(types):
+                    out["clause"] = "a column type is not printed in the type row"
+                    return out
                 for j, ty in enumerate(types):
                     if len(ty) <= case["maxcol"] and trow[j] != ty:
                         out["clause"] = "a column type is not printed in the type row"
